@@ -56,6 +56,13 @@ CLASS.update({
     "redefinition": "def f(a: int) -> int:\n    ...\n\n\ndef f(a: str) -> str:  # noqa: F811\n    ...\n\n\nclass K:\n    def m(self) -> int:\n        ...\n\n    def m(self) -> str:  # noqa: F811\n        ...\n\n    x = 1\n    x = \"s\"\n",
     "init-conditional-attrs": "class K:\n    def __init__(self, flag: bool, other: \"K\"):\n        if flag:\n            self.a = 1\n        else:\n            self.a = \"s\"\n        for i in range(3):\n            self.b = i\n        other.x = 3\n        u, v = 1, 2\n        with open(\"f\") as self.fh:\n            pass\n",
 })
+CLASS.update({
+    "subscripted-typing-base": "from collections.abc import Sequence\nfrom typing import Generic, Iterator, TypeVar\n\nT = TypeVar(\"T\")\n\n\nclass Ints(Sequence[int]):\n    def __getitem__(self, i):\n        return 1\n\n    def __len__(self) -> int:\n        return 1\n\n\nclass Box(Generic[T]):\n    pass\n\n\nclass IntBox(Box[int]):\n    pass\n\n\nclass It(Iterator[str]):\n    def __next__(self) -> str:\n        return \"\"\n",
+    "namespace-base": "from types import SimpleNamespace\n\n\nclass _B:\n    pass\n\n\nns = SimpleNamespace(Base=_B)\n\n\nclass Derived(ns.Base):\n    def m(self) -> int:\n        ...\n",
+    "enum-subscript-assign": "from enum import Enum\n\n\nclass E(Enum):\n    A = 1\n    _lookup = {}\n    _lookup[\"a\"] = 2\n",
+    "enum-nested-tuple-target": "from enum import Enum\n\n\nclass E(Enum):\n    (A, B), C = (1, 2), 3\n    D, *REST = 4, 5, 6\n",
+    "variable-as-annotation": "from typing import Any\n\nThing: Any = object\nOther = int if True else str\n\n\ndef f(a: Thing, b: Other) -> Thing:\n    ...\n\n\nclass K:\n    x: Thing\n",
+})
 FOREIGN = {
     "one-segment": "def f(x):\n    return x\n\n\ndef g(y):\n    return y, 1\n",
     "two-segment": "from pathlib import Path\n\n\ndef f(p: Path) -> Path:\n    ...\n",
@@ -149,6 +156,8 @@ def module_source(feat: list[str], pkg: str) -> dict:
         line = {"name": "from ._impl import Impl, impl_fun", "alias": "from ._impl import Impl as Shown, impl_fun as shown_fun", "star": "from ._impl import *",
                 "module": "from . import _impl", "modalias": "from . import _impl as impl", "absolute-name": "from {pkg}.{sub}._impl import Impl",
                 "all-list": "from ._impl import Impl\n\n__all__ = [\"Impl\", \"missing_name\"]",
+                "modalias-and-star": "from . import _impl as impl\nfrom ._impl import *",
+                "name-and-alias-of-one-declaration": "from ._impl import Impl\nfrom ._impl import Impl as Shown\nfrom ._impl import impl_fun, impl_fun as shown_fun",
                 "type-checking-import": "from typing import TYPE_CHECKING\n\nif TYPE_CHECKING:\n    from ._impl import Impl\n\n__all__ = [\"Impl\"]"}[k]
         return {"__init__.py": line, "_impl.py": impl, "user.py": "from {pkg}.{sub}._impl import Impl\n\n\ndef use(i: Impl) -> Impl:\n    ...\n"}
     raise ValueError(feat)
